@@ -7,6 +7,10 @@ import Ivg.Gen.Tie.Dc1
 import Ivg.Gen.Tie.DefaultViewBox
 import Ivg.Gen.Tie.DrawOps
 import Ivg.Gen.Tie.Magic
+import Ivg.Gen.Tie.Code.EncNumbers
+import Ivg.Gen.Tie.Code.EncColors
+import Ivg.Gen.Tie.Code.DecNumbers
+import Ivg.Gen.Tie.Code.DecColors
 import Ivg.Obligations
 /-!
 # C01 — encode then decode reproduces the drawing program
@@ -239,4 +243,41 @@ end Ivg.Props.C01
   Ivg.VBMono.vbValid_of_finite_ordered, Ivg.VBMono.T_key_mono, Ivg.VBMono.toOrd_rtCoord,
   Ivg.Props.C01.encode_decode_hist, Ivg.Props.C01.encode_decode_hist_valid, Ivg.Props.C01.encode_decode_hist_reused,
   Ivg.Props.C01.delivered_const,
-  Ivg.EncoderHist.invH_runOps, Ivg.EncoderHist.invH_bytes, Ivg.EncoderHist.delivered_eq]
+  Ivg.EncoderHist.invH_runOps, Ivg.EncoderHist.invH_bytes, Ivg.EncoderHist.delivered_eq,
+  -- regenerated code (translator, Ivg/Gen/Code) = model, for all inputs: EncNumbers, EncColors, DecNumbers, DecColors
+  Ivg.Gen.Tie.encodeNatural_code_tie,
+  Ivg.Gen.Tie.encode4ByteReal_code_tie,
+  Ivg.Gen.Tie.encodeReal_code_tie,
+  Ivg.Gen.Tie.encodeCoordinate_code_tie,
+  Ivg.Gen.Tie.encodeZeroToOne_code_tie,
+  Ivg.Gen.Tie.encodeAngle_code_tie,
+  Ivg.Gen.Tie.quantize_code_tie,
+  Ivg.Gen.Tie.encodeColor1_code_tie,
+  Ivg.Gen.Tie.encodeColor2_code_tie,
+  Ivg.Gen.Tie.encodeColor3Direct_code_tie,
+  Ivg.Gen.Tie.encodeColor4_code_tie,
+  Ivg.Gen.Tie.encodeColor3Indirect_code_tie,
+  Ivg.Gen.Tie.encodeColor1_code_tie_badTyp,
+  Ivg.Gen.Tie.encodeColor2_code_tie_badTyp,
+  Ivg.Gen.Tie.encodeColor3Direct_code_tie_badTyp,
+  Ivg.Gen.Tie.encodeColor4_code_tie_badTyp,
+  Ivg.Gen.Tie.encodeColor3Indirect_code_tie_badTyp,
+  Ivg.Gen.Tie.decodeNatural_code_tie,
+  Ivg.Gen.Tie.decodeNatural_model_eq,
+  Ivg.Gen.Tie.decodeReal_code_tie,
+  Ivg.Gen.Tie.decodeReal_model_eq,
+  Ivg.Gen.Tie.decodeCoordinate_code_tie,
+  Ivg.Gen.Tie.decodeCoordinate_model_eq,
+  Ivg.Gen.Tie.decodeZeroToOne_code_tie,
+  Ivg.Gen.Tie.decodeZeroToOne_model_eq,
+  Ivg.Gen.Tie.isNaNOrInfinity_code_tie,
+  Ivg.Gen.Tie.buffer_decodeColor1_code_tie,
+  Ivg.Gen.Tie.decodeColor2_code_tie,
+  Ivg.Gen.Tie.decodeColor3Direct_code_tie,
+  Ivg.Gen.Tie.decodeColor4_code_tie,
+  Ivg.Gen.Tie.decodeColor3Indirect_code_tie,
+  Ivg.Gen.Tie.buffer_decodeColor1_model_eq,
+  Ivg.Gen.Tie.decodeColor2_model_eq,
+  Ivg.Gen.Tie.decodeColor3Direct_model_eq,
+  Ivg.Gen.Tie.decodeColor4_model_eq,
+  Ivg.Gen.Tie.decodeColor3Indirect_model_eq]
